@@ -13,6 +13,12 @@ CLAIMED = {
  'C02': ("Coq theorems (unbounded, axiom-free) that the executable model of coalesce/marginal/marginalize returns fibre sums, preserves mass, composes in stages, keeps base/sparsity/names and yields a well-formed table over the projected sample space; tie to /repo: correspondence run on generated cases plus an independent property predicate evaluated on dit's own output.",
          COMMON_NOTE + "Float sums within 1e-9."),
 }
+CLAIMED['C03'] = ("Coq theorems (axiom-free) about the executable model of condition_on / joint_from_factors: selections must be valid and disjoint, one conditional per stored (non-null) conditioning value in order, the chain rule pc*v = joint for every outcome of every conditional (or trimmed null), unstored outcomes read 0, every recombined entry equals the joint value; tie to /repo: correspondence on generated cases (linear and log bases, named, sparse/dense, rvs=None) incl. joint_from_factors, plus the chain-rule/normalisation/recombination predicate evaluated on dit's own output.",
+         COMMON_NOTE + "Float rounding of p(c,r)/p(c) within 1e-9; row normalisation is checked on dit's output per case, not proved for the model.")
+CLAIMED['C09'] = ("Coq theorems (axiom-free): an invariant (stored outcomes duplicate-free, inside and ordered like the sample space, complete when dense) holds in every reachable state of the mutation machine by induction over arbitrary histories; the concrete machine (aligned lists re-sorted on insertion, as dit does) refines a plain table indexed by the sample space; illegal operations are no-ops; frame (other objects untouched); a copy equals its source incl. generator state; static data never change. Tie to /repo: after every step of generated histories every live object of dit is compared with the concrete machine and, independently, with the abstract table.",
+         COMMON_NOTE + "normalize/base changes within 1e-9 relative; validate() verdicts three-valued near tolerances; generator identity observed through a shadow RandomState.")
+CLAIMED['C12'] = ("Coq theorems (axiom-free) over Q: the scan returns exactly the index whose cumulative interval contains u (soundness and uniqueness), never a zero-probability outcome, every positive outcome is reached by some u in [0,1), totality below the mass, and the repaired fall-back returns the last positive outcome; generator draws compose. Tie to /repo: a binary64 (PrimFloat) mirror of the sequential scan is evaluated by vm_compute and must agree bit-for-bit with dit on endpoint, neighbour-float and generator-drawn random numbers; the exact-rational interval predicate is evaluated on dit's output.",
+         COMMON_NOTE + "The PrimFloat instance of the scan is executed, not proved to satisfy the ordered-field laws used by the Q theorems; NumPy RandomState is the oracle for generator streams.")
 PLANNED = {}
 ALL = ['C%02d' % i for i in range(1, 21)]
 
